@@ -51,6 +51,9 @@ QUERIES = {
     "find_borrow__entity": [("comp", "CompA"), ("comp", "CompBox")], "find_borrow__direct": [("comp", "CompA"), ("comp", "CompBox")],
     "find_borrow__any": ALLK, "find_borrow__directany": ALLK,
     "find_borrow__typed": [("comp", "CompBox"), ("comp", "CompAl"), ("entity", "ArchThree")],
+    "find_borrow__oneof": [("oneof", ["CompZ", "CompAl", "K3"]), ("comp", "CompA")],
+    "iter_borrow__oneof": [("oneof", ["CompZ", "CompAl", "K3"]), ("comp", "CompA")],
+    "iter_borrow__oneof_mut": [("oneof", ["CompD", "CompAl"]), ("comp", "CompBox")],
     "iter_mut__all": ALLK, "iter_mut__typed": [("comp", "CompBox"), ("comp", "CompAl"), ("entity", "ArchThree")],
     "iter_mut__break": [("comp", "CompA")], "iter_mut__oneof": [("oneof", ["CompZ", "CompAl", "K3"])],
     "iter_mut__cfg": [("comp", "CompA"), ("comp", "CompBox")], "iter_mut__big": [("comp", "K0"), ("comp", "K15"), ("comp", "K7")],
@@ -617,6 +620,18 @@ def rule_tables(ctx, R):
             R.anchor_missing("generated " + key)
             continue
         ps = mpaths(ctx, f) if f.key in mono(ctx).fns else ctx.paths(f, ctx.specex)
+        # a table may hand its key's id to another judged table of the same enum (whose variants carry no payload)
+        if ps is not None and len(ps) == 1 and ps[0].end == "return" and not [c for c in ps[0].conds if c[2] == "branch"]:
+            r0 = N(ps[0].ret, keep=True)
+            others = [k2 for (k2, e2, d2) in tables if e2 == enum and k2 != key]
+            if r0[0] == "call" and any(r0[1] == k2 or r0[1].endswith(k2.split("::", 1)[-1]) for k2 in others) and len(r0[2]) == 1:
+                a0 = r0[2][0]
+                id_of_arg = (is_call(a0, "archetype_id") and a0[2] and a0[2][0] in (("arg", 1), ("ref", ("arg", 1)), ("refv", ("arg", 1)))) or a0 == ("cast", "IntToInt", ("vfield", ("arg", 1), "key"), "u8") or show(a0) in ("arg1.key as u8",)
+                payload_free = enum == "SelectArchetype"
+                R.check(bool(id_of_arg and payload_free), "C14-R5", short + "|delegates", "hands archetype_id(key) to the %s table judged separately" % r0[1].split(" as ")[-1][:40],
+                        "%s forwards %s to %s" % (short, show(a0)[:80], r0[1][:80]), where_of(f), fn=f.key)
+                if id_of_arg and payload_free:
+                    continue
         seen = {}
         other_ok = False
         for p in ps or ():
@@ -853,6 +868,65 @@ def rule_delegations(ctx, R):
                 v = d.get("data")
                 ok = v is not None and is_call(v, "clone") and v[2][0] in (("ref", ("field", ("deref", ("arg", 1)), "data")), ("load", ("field", ("deref", ("arg", 1)), "data"), 0))
             R.check(ok, "C13-R4", "%s::clone" % a, "archetype clone = clone of its storage", "generated %s::clone returns %s" % (a, show(N(ps[0].ret))[:120] if ps else None), where_of(f), fn=f.key)
+    # constructors and is_empty: thin delegations as well (a generated wrapper that second-guesses the storage --
+    # e.g. skips with_capacity for some archetypes -- makes capacity()/create_within_capacity lie)
+    def storage_call(v, meth, args):
+        return is_call(v, meth) and "Storage" in v[1] and tuple(strip(a) for a in v[2]) == tuple(args)
+
+    def strip(v):
+        from .r_storage import strip_epochs
+        return strip_epochs(v)
+
+    for a in ORDER:
+        for m, args in (("new", ()), ("with_capacity", (("arg", 1),))):
+            f = sealed_fn(ctx, "<%s::%s as gecs::traits::Archetype>::%s" % (sealed, a, m))
+            if f is None:
+                R.anchor_missing("generated %s::%s" % (a, m))
+                continue
+            ps = ctx.paths(f, ctx.specex)
+            ok = ps is not None and len(ps) == 1 and ps[0].end == "return"
+            v = None
+            if ok:
+                ret = strip(N(ps[0].ret))
+                v = dict(ret[4]).get("data") if ret[0] == "agg" else None
+                ok = v is not None and storage_call(v, m, args)
+            R.check(bool(ok), "C12-R3", "%s::%s|delegates" % (a, m), "%s(%s) = Self { data: StorageN::%s(same argument) } on its only path" % (m, "capacity" if args else "", m),
+                    "generated %s::%s has %s path(s) and builds data = %s; expected exactly one path handing its own argument to the storage constructor" % (a, m, None if ps is None else len(ps), show(v)[:120] if v is not None else None), where_of(f), fn=f.key)
+        f = sealed_fn(ctx, "<%s::%s as gecs::traits::Archetype>::is_empty" % (sealed, a))
+        if f is not None:
+            g = mono(ctx).fns.get(f.key)
+            ps = mpaths(ctx, g) if g is not None else ctx.paths(f, ctx.specex)
+            ok = ps is not None and len(ps) >= 1 and all(p.end == "return" for p in ps)
+            if ok and len(ps) == 1:
+                r = strip(N(ps[0].ret))
+                lenv = ("load", ("field", ("field", ("deref", ("arg", 1)), "data"), "len"), None)
+                ok = (is_call(r, "is_empty") and "data" in show(r)) or show(r) in ("Eq(*arg1.data.len, 0)", "Eq(0, *arg1.data.len)")
+            R.check(bool(ok), "C12-R3", "%s::is_empty|delegates" % a, "is_empty() reports data.len == 0", "generated %s::is_empty returns %s" % (a, show(N(ps[0].ret))[:100] if ps else None), where_of(f), fn=f.key)
+    for m in ("new", "with_capacity"):
+        f = sealed_fn(ctx, "<%s::SpecWorld as gecs::traits::World>::%s" % (sealed, m))
+        if f is None:
+            R.anchor_missing("generated SpecWorld::%s" % m)
+            continue
+        ps = ctx.paths(f, ctx.specex)
+        ok = ps is not None and len(ps) == 1 and ps[0].end == "return"
+        R.check(ok, "C12-R3", "SpecWorld::%s|single-path" % m, "one path", "generated SpecWorld::%s has %s paths" % (m, None if ps is None else len(ps)), where_of(f), fn=f.key)
+        if not ok:
+            continue
+        ret = strip(N(ps[0].ret))
+        d = dict(ret[4]) if ret[0] == "agg" else {}
+        R.check(sorted(d) == sorted(snake(a) for a in ORDER), "C12-R3", "SpecWorld::%s|fields" % m, "every archetype constructed", "fields %s" % sorted(d), where_of(f), fn=f.key)
+        for a in ORDER:
+            fld = snake(a)
+            v = d.get(fld)
+            want = () if m == "new" else (("field", ("arg", 1), fld),)
+            want2 = () if m == "new" else (("load", ("field", ("arg", 1), fld), None),)
+            wants = [] if m == "new" else ["arg1.%s" % fld]
+            okf = v is not None and is_call(v, m) and [show(x) for x in v[2]] == wants
+            if not okf and v is not None and v[0] == "agg" and len(v[4]) == 1 and v[4][0][0] == "data":
+                inner = v[4][0][1]
+                okf = is_call(inner, m) and "Storage" in inner[1] and [show(x) for x in inner[2]] == wants
+            R.check(bool(okf), "C12-R3", "SpecWorld::%s|%s" % (m, fld), "world field %s <- %s::%s(%s)" % (fld, a, m, "capacity.%s" % fld if m != "new" else ""),
+                    "generated SpecWorld::%s sets %s = %s" % (m, fld, show(v)[:120] if v is not None else None), where_of(f), fn=f.key)
     f = sealed_fn(ctx, "<%s::SpecWorld as std::clone::Clone>::clone" % sealed)
     if f is None:
         R.anchor_missing("generated SpecWorld::clone")
@@ -885,6 +959,10 @@ BORROW_QUERIES = {
     "find_borrow__any": [("CompA", True)],
     "find_borrow__directany": [("CompA", True)],
     "find_borrow__typed": [("CompBox", False), ("CompAl", True)],
+    # OneOf parameters: the column depends on the archetype, the mode is the one written on the parameter
+    "find_borrow__oneof": {"ArchTwo": [("CompZ", False), ("CompA", True)], "ArchThree": [("CompAl", False), ("CompA", True)]},
+    "iter_borrow__oneof": {"ArchTwo": [("CompZ", False), ("CompA", False)], "ArchThree": [("CompAl", False), ("CompA", False)]},
+    "iter_borrow__oneof_mut": {"ArchThree": [("CompAl", True), ("CompBox", False)], "ArchDrop": [("CompD", True), ("CompBox", False)]},
 }
 
 
@@ -940,7 +1018,8 @@ def rule_borrow_guards(ctx, R):
                     if mty:
                         arch = mty.group(1)
                         acq = [(arch, c, m) for (_, c, m) in acq]
-                want = sorted((column_of(arch, c), m) for (c, m) in comps) if arch in WORLD and all(c in WORLD[arch][1] for c, _ in comps) else None
+                comps_a = comps.get(arch) if isinstance(comps, dict) else comps
+                want = sorted((column_of(arch, c), m) for (c, m) in comps_a) if comps_a is not None and arch in WORLD and all(c in WORLD[arch][1] for c, _ in comps_a) else None
                 got = sorted((c, m) for (_, c, m) in acq)
                 key = "%s|visit@%s" % (qname, arch)
                 R.check(want is not None and got == want and all(a == arch for a, _, _ in acq), "C11-R3", key + "|acquires", "one visit acquires exactly %s of %s" % (want, arch),
@@ -966,7 +1045,7 @@ def rule_borrow_guards(ctx, R):
                                 stack.append(tt[k2])
                         if tt["k"] == "switch":
                             stack.extend([bb for _, bb in tt["ts"]] + [tt["o"]])
-                    ncomp = len(comps)
+                    ncomp = min(len(v_) for v_ in comps.values()) if isinstance(comps, dict) else len(comps)
                     R.check(nd >= ncomp, "C11-R3", "%s|unwind@bb%d" % (qname, bi), "guards are dropped on the unwind path of the closure call (%d drops)" % nd,
                             "the unwind path of the closure call drops %d guards, %d are held: a panic in the closure would leave a column borrowed" % (nd, ncomp), where_of(f), fn=f.key)
     R.check(n_units >= 10, "C11-R3", "visits|count", "%d visit paths judged" % n_units, "only %d visit paths found" % n_units, None)
@@ -989,3 +1068,72 @@ def rule_borrow_guards(ctx, R):
                         bad.append((ko, ki, same_col, same_arch))
     R.check(not bad, "C11-R4", "matrix", "%d cells: RefCell rule on the acquired cells (C11-R2/R3 summaries) == matrix demanded by the property (conflict iff same archetype, same column (or clone), one side exclusive)" % cells,
             "computed matrix differs from the demanded one at %s" % bad[:3], None)
+
+
+# ----------------------------------------------------------------------------------
+# SP8: unchecked dynamic->typed conversions in generated code (C01-R2 / C09-R6 / C03-R8)
+# ----------------------------------------------------------------------------------
+def rule_unchecked_conversions(ctx, R):
+    """`Entity::<A>::from_any_unchecked(k)` / `EntityDirect::<A>::from_any_unchecked(k)` skips the archetype-id test.
+    In generated code it may only be reached on a path that has just established archetype_id(k) == A::ARCHETYPE_ID
+    (the arm of a dispatch on that id whose value is A's id). Anywhere else a handle of another archetype would be
+    handed to A's resolver, where slot index and generation can match by accident."""
+    n = 0
+    ids = {}
+    for world, sealed in (("main_world", "main_world::ecs_spec_world_sealed"), ("single_world", "single_world::ecs_ecs_world_sealed"), ("rc_world", None), ("big_world", None)):
+        pass
+    for key, c in ctx.spec.consts.items():
+        if key.endswith("as gecs::traits::Archetype>::ARCHETYPE_ID"):
+            ids[key[1:].split(" as ")[0]] = c.get("v")
+    for path, fn in sorted(ctx.spec.fns.items()):
+        sites = []
+        for b in fn.blocks:
+            t = b["t"]
+            if t["k"] == "call" and not t["f"].get("indirect") and t["f"]["path"].endswith("from_any_unchecked"):
+                sites.append(t)
+        if not sites:
+            continue
+        ps = ctx.paths(fn, ctx.specex)
+        if ps is None:
+            R.fail("C01-R2", "unchecked-conversion|%s|paths" % fn.short(), "path enumeration failed in a generated function that converts a dynamic key without a check (fail closed)", where_of(fn), fn=fn.key)
+            continue
+        for t in sites:
+            targs = t["f"].get("args") or []
+            arch = targs[0] if targs else None
+            want = ids.get(arch)
+            direct = "EntityDirect" in t["f"]["path"]
+            rule = "C09-R6" if direct else "C01-R2"
+            key = "unchecked-conversion|%s|%s" % (fn.short(), (arch or "?").split("::")[-1])
+            hit = 0
+            bad = None
+            for p in ps:
+                for i, e in enumerate(p.effects):
+                    if e[0] == "call" and e[4] == 0 and len(e) > 8 and e[8] is t["f"]:
+                        hit += 1
+                        arg = N(e[3][0], keep=True)
+                        guards = []
+                        for c in p.conds:
+                            if c[2] != "branch":
+                                continue
+                            v = N(c[0], keep=True)
+                            on_id = (contains(v, lambda x: is_call(x, "archetype_id")) or contains(v, lambda x: x[0] == "cast" and x[1] == "IntToInt" and x[3] == "u8")) and (
+                                contains(v, lambda x: x == arg) or (arg[0] in ("load", "arg") and contains(v, lambda x: x == ("arg", 1))))
+                            if on_id:
+                                guards.append(c[1])
+                                # `if id == A::ARCHETYPE_ID` instead of a match arm
+                                at = atom(c, keep=True)
+                                if at[0][0] == "cmp" and at[0][1] == "Eq" and at[1] is True:
+                                    for side in (at[0][2], at[0][3]):
+                                        if side == ("const", want) or (side[0] == "uneval" and side[1].endswith("ARCHETYPE_ID") and side[2] and side[2][0] == arch):
+                                            guards.append((want,))
+                        ok = want is not None and any(g == (want,) for g in guards)
+                        if not ok:
+                            bad = "reached with id guards %s; expected the arm for id %s (= %s::ARCHETYPE_ID)" % (guards, want, (arch or "?").split("::")[-1])
+            n += 1
+            R.check(hit > 0 and bad is None, rule, key, "reached only in the arm archetype_id(key) == %s" % want,
+                    "%s calls %s %s: a key of another archetype reaches the typed resolver unchecked" % (path, t["f"]["path"].split("::")[-1], bad or "on no analysed path"), where_of(fn, t["s"]), fn=fn.key)
+            if bad is not None or hit == 0:
+                R.fail("C03-R8", key, "%s: unchecked dynamic->typed conversion outside its id-checked arm (%s)" % (path, bad or "unreached"), where_of(fn, t["s"]), fn=fn.key)
+            else:
+                R.ok("C03-R8", key, "id-checked arm")
+    R.check(n >= 10, "C01-R2", "unchecked-conversion|count", "%d unchecked conversions in generated code judged" % n, "only %d from_any_unchecked sites found in the specimen expansions (expected >= 10)" % n, None)
